@@ -34,6 +34,7 @@ Script ops (domain `eq`, trees in the jvtext format):
 
 The direct oracle below is a Python statement of the property (denotation equality with
 Python's own float comparison, its own mutation semantics); it does not use the Coq model."""
+import itertools
 import re
 import jvtext as J
 
@@ -56,7 +57,12 @@ RULE = ("pairs/triples of trees generated independently from small alphabets (so
         "between building, mutating, deep-copying and comparing the trees, restored after every case; sources whose member "
         "names (selected by the same predicates) live in exact-size driver-owned heap buffers (JSON_C_OBJECT_ADD_CONSTANT_KEY), "
         "with the key pointers of the copy checked against the source's and the buffers, the buffers changed in place, then "
-        "poisoned and freed after the source was destroyed, the copy observed after each step; a case is non-trivial when "
+        "poisoned and freed after the source was destroyed, the copy observed after each step; plus a small-scope EXHAUSTIVE "
+        "block (kind small-scope; sizes in coverage.small_scope): every pair of a 60-value branch table and of all trees of "
+        "<= 2 slots through equal, every triple of an 18-value table, every tree of <= 3 slots x every callback answer "
+        "schedule, every history of <= 2 of 23 steps (one per mutator / refusal / setting) on two documents, every tree of "
+        "<= 3 slots x every subset of borrowed member names, every tree of <= 2 slots x one probe per mutator (thorough: one "
+        "step deeper); a case is non-trivial when "
         "the implementation produced a well-formed observation for it; distinct = distinct script line")
 TRUSTED = ["Coq 8.16.1 kernel (coqc), no axioms (Print Assumptions: closed under the global context)",
            "extraction (ExtrOcamlBasic only) + ocaml/mdrv glue (drv_eq.ml, jvtext.ml)",
@@ -867,6 +873,149 @@ Y_EDGES = [
 ]
 
 
+# ---- small-scope exhaustive enumeration ---------------------------------------------------
+SS_LEAVES = [None, True, ("i", 1), ("u", 1), b"a", ("d", 0, None)]
+SS_KEYS = [b"a", b"b"]
+_ss_memo = {}
+
+
+def ss_trees(n):
+    """every tree with exactly n slots (a null slot counts) over SS_LEAVES / SS_KEYS"""
+    if n in _ss_memo:
+        return _ss_memo[n]
+    if n == 1:
+        r = list(SS_LEAVES) + [[], ("o", [])]
+    else:
+        r = []
+        for k in range(1, n):
+            for comp in itertools.product(range(1, n), repeat=k):
+                if sum(comp) != n - 1:
+                    continue
+                for kids_ in itertools.product(*[ss_trees(c) for c in comp]):
+                    r.append(list(kids_))
+                    if k <= len(SS_KEYS):
+                        for ks in itertools.permutations(SS_KEYS, k):
+                            r.append(("o", list(zip(ks, kids_))))
+    _ss_memo[n] = r
+    return r
+
+
+def ss_upto(n):
+    return [t for i in range(1, n + 1) for t in ss_trees(i)]
+
+
+# one value per branch of json_object_equal (and a few that look alike)
+SS_VALUES = ["n", "t", "f", "i0", "u0", "i1", "u1", "i-1", "i9223372036854775807", "u9223372036854775807", "u9223372036854775808",
+             "i-9223372036854775808", "u18446744073709551615", "d0000000000000000", "d8000000000000000", "d3ff0000000000000",
+             "d3ff0000000000000:312e30", "d3ff0000000000000:31", "dbff0000000000000", "d7ff8000000000000", "dfff8000000000001",
+             "d7ff0000000000000", "dfff0000000000000", "d0000000000000001", "d43e0000000000000", "s-", "s00", "s61", "s6100", "s610062",
+             "s610063", "s62", "s6161", "s30", "s" + "61" * 40, "[]", "[n]", "[n,n]", "[i1]", "[u1]", "[i1,i2]", "[i2,i1]", "[[]]", "[{}]",
+             "[d7ff8000000000000]", "{}", "{61=n}", "{62=n}", "{61=i1}", "{61=u1}", "{62=i1}", "{61=i1,62=i2}", "{62=i2,61=i1}",
+             "{61=i2,62=i1}", "{61=i1,62=n}", "{-=i1}", "{61={}}", "{61=[]}", "{61={61=i1}}", "{61=d7ff8000000000000}"]
+SS_TRIPLE = ["n", "i1", "u1", "i-1", "u18446744073709551615", "d3ff0000000000000", "d0000000000000000", "d8000000000000000",
+             "d7ff8000000000000", "s61", "s6100", "[i1]", "[u1]", "[]", "{61=i1,62=i2}", "{62=u2,61=u1}", "{61=i1}", "{}"]
+# one history step per mutator and per way of being refused, on documents shaped {a:int, b:[str]} / [int,{a:str}]
+SS_DOCS = [("{61=i1,62=[s78]}", ["/k61", "/k62", "/k62/i0", "", "/k7a"]), ("[i1,{61=s78}]", ["/i0", "/i1", "/i1/k61", "", "/i5"])]
+SS_LONG = b"a considerably longer piece of text".hex()
+
+
+def ss_ops(pint, pcont, pstr, proot, pbad):
+    """pint: path of an int, pcont: of the inner container, pstr: of a string, proot: the root, pbad: resolves nowhere"""
+    return [pint + ":I5", pint + ":U5", pint + ":I1", pint + ":S61", pstr + ":S" + SS_LONG, pstr + ":S78", pstr + ":S-", pstr + ":I1",
+            pcont + ":A" + "n", pcont + ":Z2=i1", pcont + ":X0,1", pcont + ":X1,1", pcont + ":P63=n", pcont + ":P61=s78", pcont + ":K61",
+            proot + ":P61=i1", proot + ":K61", proot + ":K7a", proot + ":A" + "t", proot + ":X0,1", pbad + ":I1", "@H1", "@H0"]
+
+
+SS_COUNTS = {}
+
+
+def gen_small_scope(tier, out):
+    q = tier == "quick"
+    n0 = len(out)
+
+    def add(line, sub):
+        out.append((line, {"kind": "small-scope", "sub": sub}))
+        SS_COUNTS[sub] = SS_COUNTS.get(sub, 0) + 1
+    SS_COUNTS.clear()
+    # 1. every ordered pair of the branch table through json_object_equal
+    for a, b in itertools.product(SS_VALUES, repeat=2):
+        add("eq E %s %s" % (a, b), "E: pairs of the %d-value branch table" % len(SS_VALUES))
+    # 2. every ordered pair of trees of <= 3 x <= 2 (thorough: <= 3 x <= 3) slots
+    big = [J.dump(t) for t in ss_upto(3)]
+    small = [J.dump(t) for t in ss_upto(2 if q else 3)]
+    for a, b in itertools.product(big, small):
+        add("eq E %s %s" % (a, b), "E: pairs of all trees of <= 3 x <= %d slots" % (2 if q else 3))
+    # 3. every ordered triple of a table (transitivity at small scope)
+    tri = SS_TRIPLE + ["t", "f", "s-", "[n]", "{61=n}", "dfff8000000000001", "i9223372036854775807", "u9223372036854775807"]
+    if not q:
+        tri = tri + ["u9223372036854775808", "i-9223372036854775808", "d3ff0000000000000:31", "s610062", "s610063", "[i1,i2]", "{61=i2,62=i1}", "[{}]"]
+    for a, b, c in itertools.product(tri, repeat=3):
+        add("eq T %s %s %s" % (a, b, c), "T: triples of a %d-value table" % len(tri))
+    # 4. the pointer shortcut on every tree of <= 3 (4) slots
+    for t in ss_upto(3 if q else 4):
+        add("eq X " + J.dump(t), "X: every tree of <= %d slots shared" % (3 if q else 4))
+    # 5. every tree of <= 4 slots x every callback answer schedule
+    for t in ss_upto(4):
+        n = count_nodes(t)
+        if n == 0:
+            add("eq Y n *=2 -", "Y: NULL source")
+            continue
+        alpha = "12TFG" if n <= 2 else ("12F" if n <= 3 or not q else "12")
+        for sched in itertools.product(alpha, repeat=n):
+            rules = ";".join("c%d=%s" % (i, x) for i, x in enumerate(sched))
+            add("eq Y %s %s -" % (J.dump(t), rules), "Y: trees of <= 4 slots x every answer schedule (1,2,T,F,G up to 2 nodes; 1,2,F for 3; %s for 4)" % ("1,2" if q else "1,2,F"))
+        if n == 4 and not q:   # failure after creating the node, at each position
+            for i in range(n):
+                add("eq Y %s c%d=G -" % (J.dump(t), i), "Y: 4-node trees, one call failing after it created the node")
+        if n <= (2 if q else 3):   # application userdata on one source node, every schedule over 1,2,T
+            for tagged in range(n):
+                for sched in itertools.product("12T", repeat=n):
+                    rules = ";".join("c%d=%s" % (i, x) for i, x in enumerate(sched))
+                    add("eq Y %s %s c%d" % (J.dump(t), rules, tagged), "Y: trees of <= %d nodes, one node with userdata x schedules over 1,2,T" % (2 if q else 3))
+    # 6. every history of <= 2 (3) steps over one step per mutator / refusal / setting, against the value it reaches and the start value
+    for doc, (pa, pb, pc, pr, pbad) in SS_DOCS:
+        ops = ss_ops(pa, pb, pc, pr, pbad)
+        d0 = J.parse(doc)[0]
+        for ln in range(0, (2 if q else 3) + 1):
+            for hist in itertools.product(ops, repeat=ln):
+                ht = hist_text(list(hist))
+                _, reached = py_history(d0, ht)
+                add("eq H %s %s %s - -" % (doc, ht, J.dump(reached)), "H: histories of <= %d of %d steps vs the value reached" % (2 if q else 3, len(ops)))
+                if 1 <= ln <= 2:
+                    add("eq H %s %s %s - @H0" % (doc, ht, doc), "H: histories of <= 2 steps vs the start value")
+    # 7. every tree of <= 3 (4) slots with members x every subset of members whose names the source borrows
+    for t in ss_upto(3 if q else 4):
+        _, _, nm = const_members(t, "-")
+        if nm == 0:
+            continue
+        for sub in itertools.product([0, 1], repeat=nm):
+            conds = []           # a member is addressed by (depth of its value, name)
+            i = 0
+            for p in paths(t):
+                x = get(t, p)
+                if is_obj(x):
+                    for k, _ in x[1]:
+                        if sub[i]:
+                            conds.append("d%d&k%s" % (len(p) + 1, J.hx(k)))
+                        i += 1
+            for mut in ([":K61", ":A" + "n", ":P62=i7", "/k61:I3"] if count_nodes(t) <= 3 else [":K61", ":A" + "n"]):
+                add("eq B %s %s %s" % (J.dump(t), ";".join(conds) if conds else "-", mut), "B: trees of <= %d slots x every subset of borrowed names" % (3 if q else 4))
+    # 8. every tree of <= 3 slots as a copy source x one probe per mutator at the root (thorough: 4 slots, 5 probes)
+    probes = [":A" + "n", ":P61=i2", ":K61", ":I7", ":U7", ":S" + SS_LONG, ":S-", ":D3ff0000000000000", ":B0", ":Z1=t", ":X0,1", "@H1", "/i0:I1", "/k61:I1"]
+    for t in ss_upto(3):
+        for mut in probes:
+            add("eq C %s %s" % (J.dump(t), mut), "C: every tree of <= 3 slots x one probe per mutator")
+    if not q:
+        for t in ss_trees(4):
+            for mut in [":A" + "n", ":P61=i2", ":K61", "/i0:S" + SS_LONG, "/k61:I1"]:
+                add("eq C %s %s" % (J.dump(t), mut), "C: every tree of 4 slots x 5 probes")
+    return len(out) - n0
+
+
+def extra_coverage():
+    return {"small_scope": dict(SS_COUNTS), "small_scope_total": sum(SS_COUNTS.values())}
+
+
 def gen(rng, tier):
     q = tier == "quick"
     out = []
@@ -962,6 +1111,8 @@ def gen(rng, tier):
         out.append(("eq B %s %s %s" % (a, conds, mut), {"kind": "B-edge"}))
     for _ in range(500 if q else 15000):
         gen_B(rng, out)
+    # small-scope exhaustive block (no randomness)
+    gen_small_scope(tier, out)
     return out
 
 
